@@ -814,3 +814,17 @@ Proof. intros L. unfold namer. apply Nat.leb_le in L. rewrite L. reflexivity. Qe
 Theorem namer_seeded_refuted :
   exists h s1 s2 x, namer 4 h s1 x <> namer 4 h s2 x.
 Proof. exists (fun seed _ => seed), "1", "2", "abcdefgh". vm_compute. discriminate. Qed.
+
+(* ---- each address once: Compact is a de-duplication only after a sort *)
+Theorem compact_after_sort_deterministic (l1 l2 : list string) :
+  Permutation l1 l2 -> compact (isort (fun a => a) l1) = compact (isort (fun a => a) l2).
+Proof. intros P. rewrite (site_endpoints_sorted_deterministic l1 l2 P). reflexivity. Qed.
+
+(* on a list in arrival order the result depends on the order, even after the generator sorts it *)
+Theorem compact_unsorted_refuted :
+  exists l1 l2, Permutation l1 l2 /\
+    isort (fun a => a) (compact l1) <> isort (fun a => a) (compact l2).
+Proof.
+  exists ["10.0.0.1:80"; "10.0.0.1:80"; "10.0.0.2:80"], ["10.0.0.1:80"; "10.0.0.2:80"; "10.0.0.1:80"].
+  split; [constructor; apply perm_swap|]. vm_compute. discriminate.
+Qed.
